@@ -944,6 +944,8 @@ def json_decode(data_type, serialized_obj, caller_permissions=None,
         deserialized_obj = json.loads(serialized_obj)
     except ValueError:
         raise bv.ValidationError('could not decode input as JSON')
+    except RecursionError:
+        raise bv.ValidationError('input is nested too deeply')
     else:
         return json_compat_obj_decode(
             data_type, deserialized_obj, caller_permissions=caller_permissions,
@@ -972,17 +974,21 @@ def json_compat_obj_decode(data_type, obj, caller_permissions=None,
     decoder = PythonPrimitiveToStoneDecoder(caller_permissions,
         alias_validators, for_msgpack, old_style, strict)
 
-    if isinstance(data_type, bv.Primitive):
-        return decoder.make_stone_friendly(
-            data_type, obj, True)
-    elif isinstance(data_type, (bv.List, bv.Map, bv.Nullable)):
-        # The helper leaves the validation of primitives, bounds and items to the struct
-        # or union the value is assigned to. At the top level there is none.
-        return data_type.validate(
-            decoder.json_compat_obj_decode_helper(data_type, obj))
-    else:
-        return decoder.json_compat_obj_decode_helper(
-            data_type, obj)
+    try:
+        if isinstance(data_type, bv.Primitive):
+            return decoder.make_stone_friendly(
+                data_type, obj, True)
+        elif isinstance(data_type, (bv.List, bv.Map, bv.Nullable)):
+            # The helper leaves the validation of primitives, bounds and items to the struct
+            # or union the value is assigned to. At the top level there is none.
+            return data_type.validate(
+                decoder.json_compat_obj_decode_helper(data_type, obj))
+        else:
+            return decoder.json_compat_obj_decode_helper(
+                data_type, obj)
+    except RecursionError:
+        # The decoder recurses once per level of nesting.
+        raise bv.ValidationError('input is nested too deeply')
 
 def _strftime(dt, fmt):
     return dt.strftime(fmt)
